@@ -155,6 +155,17 @@ Proof.
   cbn zeta. eexists. eexists. split; [vm_compute; reflexivity|]. split; [vm_compute; reflexivity|]. vm_compute. reflexivity.
 Qed.
 
+(** CHANGE COLUMN of an indexed column: the index keeps the old column name *)
+Theorem change_column_leaves_index :
+  exists h st, clean h init /\ known (run h init) st = true /\
+    let s := step_state (run h init) st in
+    exists x tb, alookup nIX (s_sidx s) = Some x /\ alookup (qual public nT0) (s_tabs s) = Some tb /\
+                 forallb (fun c => mem_name c (col_names (t_schema tb))) (si_cols x) = false.
+Proof.
+  exists [mkT0; mkIX], (ChangeColumn nT0 nB (mkcol nC true None)). split; [clean_hist|]. split; [vm_compute; reflexivity|].
+  cbn zeta. eexists. eexists. split; [vm_compute; reflexivity|]. split; [vm_compute; reflexivity|]. vm_compute. reflexivity.
+Qed.
+
 (** follow-on panics in states that no longer agree (both observed on the real code) *)
 Theorem panic_after_drop_column_delete :
   snd (step (run [mkT0; Insert nT0 [[1; 10]]; Insert nT0 [[2; 20]]; mkIX; DropColumn nT0 nB false] init)
